@@ -3,7 +3,8 @@
 E1 BFS over real HeavyHitters objects in which query(.., t) is itself a
 state-changing EVENT (it rewrites the candidate cache, which is part of the
 captured state), interleaved with add / add_ngram / merge / save+load.  At
-every query event: <= k pairs, distinct keys, non-increasing, each count ==
+every query event (k = 1 is asked first, then inf, 1, 2, 3): <= k pairs, distinct
+keys, non-increasing, each count ==
 hh[key] and >= threshold, first-k consistency, completeness for added keys
 with hh[key] >= max(threshold,1), and equality with a freshly loaded copy.
 """
